@@ -147,44 +147,48 @@ theorem imports_sufficient (W : World) (v : Val)
   · exact Or.inr (Or.inl h)
   · exact Or.inr (Or.inr h)
 
-/-- **code_rt**: whenever `render` returns, executing the rendered source — the
-emitted import lines, then the emitted expression — succeeds and yields a value
-Python-equal to the original, for all classes (nested, frozen, with
-`init=False` fields and default factories) and all instances in the domain:
-members of nested enums, tuples (also as dict keys), sets and frozensets,
-QNames with any text, ±inf, Decimals, bytes, date/time values, empty and nested
-collections, attribute maps. Fields elided because they equal their default are
-restored by the constructor to a value equal to the original's. -/
-theorem code_rt (W : World) (v : Val)
-    (hwf : wf W v = true) (hdom : domOK W v = true) (hr : renders W v = true) :
+/-- **code_rt (partial)**: whenever `render` returns and the rendered
+expression stays within the parser's bracket-nesting limit, executing the
+rendered source — the emitted import lines, then the emitted expression —
+succeeds and yields a value Python-equal to the original, for all classes
+(nested, frozen, with `init=False` fields and default factories) and all
+instances in the domain: members of nested enums, tuples (also as dict keys),
+sets and frozensets, strings and bytes with any content, QNames with any text,
+±inf, Decimals, date/time values, empty and nested collections, attribute
+maps. Fields elided because they equal their default are restored by the
+constructor to a value equal to the original's. -/
+theorem code_rt_partial (W : World) (v : Val)
+    (hwf : wf W v = true) (hdom : domOK W v = true) (hr : renders W v = true)
+    (hn : nestingOK W v = true) :
     ∃ v', run W v = .ok v' ∧ pyEq v' v = true := by
   obtain ⟨v', h1, h2, _⟩ := rt W (importsEnv W v) v hwf (valOK_of_dom W v hdom)
     (imports_sufficient W v hwf hdom hr)
-  exact ⟨v', h1, h2⟩
+  exact ⟨v', by simp [run, hn, h1], h2⟩
 
 /-- the same, phrased on the outcome class that the correspondence check
 compares with the real `exec` -/
-theorem outcome_equal (W : World) (v : Val)
-    (hwf : wf W v = true) (hdom : domOK W v = true) (hr : renders W v = true) :
+theorem outcome_equal_partial (W : World) (v : Val)
+    (hwf : wf W v = true) (hdom : domOK W v = true) (hr : renders W v = true)
+    (hn : nestingOK W v = true) :
     outcome W v = cs!"equal" := by
-  obtain ⟨v', hrun, he⟩ := code_rt W v hwf hdom hr
+  obtain ⟨v', hrun, he⟩ := code_rt_partial W v hwf hdom hr hn
   have hrisk := no_risk W v (valOK_of_dom W v hdom)
   simp [outcome, hr, hrisk, hrun, he]
 
 /-- **render either refuses or round-trips**: `PycodeSerializer.render` raises
 `SerializerError` exactly when one outermost name belongs to two modules among
-the types it collected; otherwise it returns the source text, and that source
-evaluates back to an equal object. It never returns source that builds
-something else. -/
+the types it collected; otherwise it returns the source text, and (within the
+nesting limit) that source evaluates back to an equal object. It never returns
+source that builds something else. -/
 theorem render_refuses_or_round_trips (W : World) (v : Val) (var : Str)
-    (hwf : wf W v = true) (hdom : domOK W v = true) :
+    (hwf : wf W v = true) (hdom : domOK W v = true) (hn : nestingOK W v = true) :
     (sourceE W v var = .error .serializerError ∧ clashFree (render W v).types = false) ∨
     (sourceE W v var = .ok (source W v var) ∧ ∃ v', run W v = .ok v' ∧ pyEq v' v = true) := by
   cases hr : renders W v
   · left
     exact ⟨by simp [sourceE, hr], by simpa [renders] using hr⟩
   · right
-    exact ⟨by simp [sourceE, hr], code_rt W v hwf hdom hr⟩
+    exact ⟨by simp [sourceE, hr], code_rt_partial W v hwf hdom hr hn⟩
 
 /-- **code_rt for any adequate namespace**: the round trip does not depend on
 how the names got bound — any namespace in which the references resolve will do
@@ -227,7 +231,7 @@ def good : Val :=
            .model in2R [.dict [(.enum topR cs!"B", .qname cs!"{a\\b}\"x")]]],
     .tuple [.enum innerR cs!"A", .dict [(.tuple [.int 1, .int 2], .set true [.tuple [.int 3], .none]), (.int 0, .set false [])]], en, .bool false]
 
-example : wf W1 good = true ∧ domOK W1 good = true ∧ renders W1 good = true := by decide
+example : wf W1 good = true ∧ domOK W1 good = true ∧ renders W1 good = true ∧ nestingOK W1 good = true := by decide
 example : outcome W1 good = cs!"equal" := by decide
 
 /-! ## Full-strength statements and why they still fail -/
@@ -237,10 +241,13 @@ example : outcome W1 good = cs!"equal" := by decide
 `render` is partial since the fix `c18c-01`: it refuses (SerializerError) an
 object graph in which one outermost name belongs to classes of two modules,
 instead of emitting source in which the later import shadows the earlier one.
-Both halves of C18 hold of every object it does render. -/
+The second half of C18 (imports) holds of every object it does render; the
+first half still fails for one reason: CPython's tokenizer accepts at most
+`Tables.parserMaxNesting` (200) open brackets, and every level of a collection
+or of a model adds one. -/
 
-/-- C18, first half: every instance in the domain that `render` accepts
-round-trips. -/
+/-- C18, first half, at full strength: every instance in the domain that
+`render` accepts round-trips. **False**: deep nesting. -/
 def CodeRoundTrips : Prop :=
   ∀ (W : World) (v : Val), wf W v = true → domOK W v = true → renders W v = true →
     ∃ v', run W v = .ok v' ∧ pyEq v' v = true
@@ -251,8 +258,37 @@ def ImportsSufficient : Prop :=
   ∀ (W : World) (v : Val), wf W v = true → domOK W v = true → renders W v = true →
     EnvGood W (importsEnv W v) (render W v).refs
 
-theorem codeRoundTrips : CodeRoundTrips := code_rt
 theorem importsSufficient : ImportsSufficient := imports_sufficient
+
+/-- `[[…[1]…]]`, `n` brackets deep -/
+def nestedList : Nat → Val
+  | 0 => .int 1
+  | n + 1 => .list [nestedList n]
+
+/-- decidable form of "running the source fails with `e`" -/
+def failsWith (W : World) (v : Val) (e : Err) : Bool :=
+  match run W v with
+  | .error e' => e' == e
+  | .ok _ => false
+
+theorem not_rt_of_fails {W : World} {v : Val} {e : Err} (h : failsWith W v e = true) :
+    ¬ ∃ v', run W v = .ok v' ∧ pyEq v' v = true := by
+  rintro ⟨v', hr, _⟩
+  simp [failsWith, hr] at h
+
+/-- **Defect — nesting beyond the parser's limit.** A list nested 201 deep (or
+101 levels of a model holding a list of models) is rendered, but the source
+does not compile: "too many nested parentheses". 200 deep still works. -/
+theorem deep_nesting_does_not_compile :
+    wf [] (nestedList 201) = true ∧ domOK [] (nestedList 201) = true ∧ renders [] (nestedList 201) = true ∧
+    (render [] (nestedList 201)).depth = 201 ∧ failsWith [] (nestedList 201) .syntaxError = true ∧
+    outcome [] (nestedList 200) = cs!"equal" := by
+  decide +kernel
+
+theorem not_codeRoundTrips : ¬ CodeRoundTrips := fun h =>
+  not_rt_of_fails deep_nesting_does_not_compile.2.2.2.2.1
+    (h [] (nestedList 201) deep_nesting_does_not_compile.1 deep_nesting_does_not_compile.2.1
+      deep_nesting_does_not_compile.2.2.1)
 
 /-- The former defect (one class name imported from two modules: wrong class
 built, or TypeError for an unknown keyword) is now refused; a class named like
